@@ -1456,6 +1456,19 @@ func (g *G) Helpers() []ast.Node {
 			ast.Name{N: "r"}}}}},
 	}
 	g.Globals = append(g.Globals, Var{Name: "tclob", T: FunOf(Int, Int)}, Var{Name: "tloop", T: FunOf(Int, Int)})
+	// numerically equal int and float literals next to each other (the function has no other constants between
+	// them), and a slice taken beyond the length of a slice that has spare capacity behind it
+	k := int64(g.R.Range(2, 9))
+	defs = append(defs,
+		ast.Assign{Name: "tmix", Value: ast.FuncLit{Params: []string{"n"}, Body: ast.Binary{Op: "+", L: ast.Binary{Op: "/", L: n, R: ast.IntLit{V: k}}, R: ast.Binary{Op: "/", L: n, R: ast.FloatLit{V: float64(k)}}}}},
+		ast.Call{Fn: "tmix", Args: []ast.Node{ast.IntLit{V: int64(g.R.Range(1, 50))}}},
+		ast.Assign{Name: "tmixb", Value: ast.FuncLit{Params: []string{"n"}, Body: ast.Binary{Op: "+", L: ast.Binary{Op: "*", L: n, R: ast.FloatLit{V: float64(k)}}, R: ast.Binary{Op: "%", L: n, R: ast.IntLit{V: k}}}}},
+		ast.Call{Fn: "tmixb", Args: []ast.Node{ast.IntLit{V: int64(g.R.Range(1, 50))}}})
+	if g.O.Faults > 0 || g.R.Chance(1, 4) {
+		defs = append(defs,
+			ast.Assign{Name: "tpre", Value: ast.Slice{X: ast.ArrayLit{Elems: []ast.Node{ast.IntLit{V: 1}, ast.IntLit{V: 2}, ast.IntLit{V: 3}, ast.IntLit{V: 4}}}, I: ast.IntLit{V: 0}, J: ast.IntLit{V: 2}}},
+			ast.Unary{Op: "#", X: ast.Slice{X: ast.Name{N: "tpre"}, I: ast.IntLit{V: 0}, J: ast.IntLit{V: int64(g.R.Range(3, 4))}}})
+	}
 	if g.O.Writes && !g.O.Purity {
 		defs = append(defs, ast.Assign{Name: "tsay", Value: ast.FuncLit{Params: []string{"b"}, Body: ast.Block{Stmts: []ast.Node{ast.Call{Fn: "write", Args: []ast.Node{ast.StrLit{V: "?"}}}, ast.Name{N: "b"}}}}})
 		g.SayCond = true
